@@ -45,10 +45,12 @@ ASSUMPTIONS = [
     "no minimality of the number of batches is demanded (the statement does not ask for it)",
 ]
 BOUNDS = {
-    "quick": "~19k query expressions (32 leaves, all ordered pairs, triples over 10 leaves in both groupings, any_of over 1-3 of 22 "
-    "operands, nested any_of, group x leaf combinations); batches: n in {0,1,2,3,5,12} values of length 1/8/40/mixed x 2 axes x 6 contexts x "
-    "base {0,100} x every integer budget from below one-value-fits to above all-fit (thinned when the range exceeds 120)",
-    "thorough": "triples over all 32 leaves (both groupings), any_of over 1-3 of 30 operands, deeper nesting; batches: n in 0..12, every integer budget",
+    "quick": "18,792 query expressions (32 leaves, all ordered pairs, triples over 10 leaves in both groupings, any_of over 1-3 of 22 "
+    "operands, nested any_of to depth 2, group x leaf combinations, paging) each on the product universe of the touched fields (4-768 bugs); "
+    "batches: 605 configurations = n in {0,1,2,3,5,12} values of length 1/8/40/mixed x {id, package-list} axis x 6 contexts x base {0,100} "
+    "(+ two-axis and no-axis cases) x every integer budget from below one-value-fits to above all-fit (thinned when the range exceeds 120): 34.7k batch runs",
+    "thorough": "127,865 query expressions (triples over all 32 leaves in both groupings, & chains of 4, any_of over 1-3 of 33 operands and 4 of 8, "
+    "deeper nesting); batches: 1,277 configurations, n in 0..12, every integer budget: 170k batch runs",
 }
 
 GL, GS = "Gentoo Linux", "Gentoo Security"
@@ -669,6 +671,18 @@ def query_specs(tier):
             for b in nest:
                 yield ANY(a, b)
                 yield ANY(AND(a, b), FLP)
+    if not quick:
+        # longer shapes: & chains of 4 and any_of over 4 operands
+        for a in R_LEAVES:
+            for b in R_LEAVES:
+                for c in R_LEAVES:
+                    for d in R_LEAVES:
+                        yield AND(AND(AND(a, b), c), d)
+        for a in cr:
+            for b in cr:
+                for c in cr:
+                    for d in cr:
+                        yield ANY(a, b, c, d)
     # any_of over operands that carry simple parameters (must be refused or mean the disjunction)
     for s in S_LEAVES[::3]:
         for c in (KW1, FLP):
